@@ -14,7 +14,7 @@ SEEDED = os.path.join(VERIF, 'seeded')
 
 
 def sh(cmd, cwd=None, timeout=600):
-    r = subprocess.run(cmd, shell=True, cwd=cwd, capture_output=True, text=True, timeout=timeout)
+    r = subprocess.run(cmd, shell=True, cwd=cwd, capture_output=True, text=True, errors="replace", timeout=timeout)
     return r.returncode, r.stdout + r.stderr
 
 
